@@ -12,13 +12,15 @@ Inductive seg :=
 | SLit (h : bytes)                        (* these bytes, as they are *)
 | SDyn (t : token)                        (* html-escaped value of the Go expression [formatted_code t] *)
 | SDynQ (t : token)                       (* the same, followed by the double quote that closes an attribute value *)
+| SRaw (t : token)                        (* the value of the expression as it is: `!=`, `! ... #{}` *)
 | SBlock (stmt : bytes) (body : list seg). (* the Go statement [stmt { body }]: body rendered when / as often as Go runs it *)
 
 (** the meaning of a segment list under a valuation of the Go expressions *)
 (** (blocks have no meaning without Go's semantics of the statement: they contribute nothing here) *)
 Definition eval_segs (rho : bytes -> bytes) (l : list seg) : bytes :=
   List.concat (map (fun s => match s with SLit h => h | SDyn t => html_escape (rho (formatted_code t))
-                             | SDynQ t => html_escape (rho (formatted_code t)) ++ [34] | SBlock _ _ => [] end) l).
+                             | SDynQ t => html_escape (rho (formatted_code t)) ++ [34]
+                             | SRaw t => rho (formatted_code t) | SBlock _ _ => [] end) l).
 
 (** [ind] is the indentation of the Go code at this point of the template body *)
 Definition Lo (ind : nat) : wlocal := mkWL ind true true false.     (* a string literal is open *)
@@ -36,6 +38,12 @@ Definition dyn_code (ind : nat) (v : bytes) (t : token) : bytes :=
 
 (** [denotes m m' code segs]: [code], starting with a literal open ([m]) or not and ending so ([m']), is a
     well-formed run of literal chunks and dynamic blocks that stands for [segs] *)
+(** the same block in an unescaped context: no goht.EscapeString *)
+Definition raw_code (ind : nat) (v : bytes) (t : token) : bytes :=
+  tabs ind ++ lit "var " ++ v ++ lit " string" ++ [10] ++
+  tabs ind ++ lit "if " ++ v ++ lit ", __err = goht.CaptureErrors(" ++ formatted_code t ++ lit "); __err != nil { return }" ++ [10] ++
+  tabs ind ++ write_string_open ++ v ++ lit "); __err != nil { return }" ++ [10].
+
 (** the code of a dynamic attribute value: the escaped value and the closing quote in one write *)
 Definition attr_dyn_code (ind : nat) (t : token) : bytes :=
   tabs ind ++ write_string_open ++ lit "goht.EscapeString(" ++ formatted_code t ++ lit ")+""\""""); __err != nil { return }" ++ [10].
@@ -50,6 +58,7 @@ Inductive denotes : nat -> bool -> bool -> bytes -> list seg -> Prop :=
 | d_close ind rest segs m' : denotes ind false m' rest segs -> denotes ind true m' (close_text (Lo ind) ++ rest) segs
 | d_dyn ind v t rest segs m' : denotes ind false m' rest segs -> denotes ind false m' (dyn_code ind v t ++ rest) (SDyn t :: segs)
 | d_attr ind t rest segs m' : denotes ind false m' rest segs -> denotes ind false m' (attr_dyn_code ind t ++ rest) (SDynQ t :: segs)
+| d_raw ind v t rest segs m' : denotes ind false m' rest segs -> denotes ind false m' (raw_code ind v t ++ rest) (SRaw t :: segs)
 | d_block ind stmt body_code body mb rest segs m' :
     denotes (S ind) false mb body_code body -> denotes ind false m' rest segs ->
     denotes ind false m' (block_code ind stmt body_code mb ++ rest) (SBlock stmt body :: segs).
@@ -58,13 +67,14 @@ Lemma denotes_app ind m1 m2 m3 c1 s1 c2 s2 : denotes ind m1 m2 c1 s1 -> denotes 
 Proof.
   intro H1. revert m3 c2 s2.
   induction H1 as [ind m|ind p h rest segs m' Hr _ IH|ind rest segs m' _ IH|ind rest segs m' _ IH|ind v t rest segs m' _ IH
-                  |ind t rest segs m' _ IH|ind stmt bc body mb rest segs m' Hb _ _ IH]; intros m3 c2 s2 H2; cbn [app].
+                  |ind t rest segs m' _ IH|ind v t rest segs m' _ IH|ind stmt bc body mb rest segs m' Hb _ _ IH]; intros m3 c2 s2 H2; cbn [app].
   - exact H2.
   - rewrite <- app_assoc. apply d_lit; [exact Hr|apply IH; exact H2].
   - rewrite <- app_assoc. apply d_open. apply IH; exact H2.
   - rewrite <- app_assoc. apply d_close. apply IH; exact H2.
   - rewrite <- app_assoc. apply d_dyn. apply IH; exact H2.
   - rewrite <- app_assoc. apply d_attr. apply IH; exact H2.
+  - rewrite <- app_assoc. apply d_raw. apply IH; exact H2.
   - rewrite <- app_assoc. apply d_block; [exact Hb|apply IH; exact H2].
 Qed.
 
@@ -203,6 +213,59 @@ Proof.
 Qed.
 End Seg.
 
+(** * inside an unescaped context (`!=`, `! text`): the same two modes with the unescape flag set *)
+Section Raw.
+Variable ind : nat.
+Definition Lou : wlocal := mkWL ind true true true.
+Definition Lcu : wlocal := mkWL ind false false true.
+Definition MSu (m : bool) (st : est) : Prop := w_err (fst st) = None /\ snd st = (if m then Lou else Lcu).
+Definition Runu (m : bool) (st : est) (m' : bool) (st' : est) (segs : list seg) : Prop :=
+  MSu m' st' /\ exists code, txt st' = txt st ++ code /\ denotes ind m m' code segs.
+
+Lemma Runu_refl m st : MSu m st -> Runu m st m st [].
+Proof. intro H. split; [exact H|]. exists []. split; [rewrite app_nil_r; reflexivity|constructor]. Qed.
+
+Lemma Runu_trans m1 s1 m2 s2 m3 s3 a b : Runu m1 s1 m2 s2 a -> Runu m2 s2 m3 s3 b -> Runu m1 s1 m3 s3 (a ++ b).
+Proof.
+  intros [_ (c1 & T1 & D1)] [M3 (c2 & T2 & D2)]. split; [exact M3|]. exists (c1 ++ c2).
+  split; [rewrite T2, T1, app_assoc; reflexivity|eapply denotes_app; eassumption].
+Qed.
+
+Lemma chunk_run_u m p h st : MSu m st -> reads_as p h -> Runu m st true (tw_write_string_literal p st) [SLit h].
+Proof.
+  intros [He Hl] Hr. destruct st as [[o n l c a e] loc]. cbn [fst snd w_err] in *. subst e loc.
+  destruct m; unfold tw_write_string_literal; cbn [snd Lou Lcu wl_static wl_indent wl_unesc].
+  - unfold wr, write, w_write. cbn [fst snd w_err]. split; [split; reflexivity|].
+    exists p. split; [unfold txt; cbn [fst w_out rev]; rewrite concat_app; cbn; rewrite app_nil_r; reflexivity|].
+    rewrite <- (app_nil_r p). apply d_lit; [exact Hr|constructor].
+  - unfold wr, write, w_write, set_local. cbn [fst snd w_err]. split; [split; reflexivity|].
+    exists (opener ind ++ p). split.
+    + unfold txt, opener. cbn [fst w_out rev]. rewrite !concat_app. cbn [List.concat]. rewrite !app_nil_r, <- !app_assoc. reflexivity.
+    + apply d_open. rewrite <- (app_nil_r p). apply d_lit; [exact Hr|constructor].
+Qed.
+
+Lemma raw_run m sm t st : MSu m st -> Runu m st false (emit_dynamic sm t st) [SRaw t].
+Proof.
+  intros [He Hl].
+  assert (Hclosed : forall s, w_err (fst s) = None -> snd s = Lcu -> Runu false s false (emit_dynamic sm t s) [SRaw t]).
+  { intros s Hes Hls. assert (Q : quiet s) by (split; [exact Hes|rewrite Hls; reflexivity]).
+    destruct (emit_dynamic_quiet sm t s Q) as [[Qe _] Ql]. split; [split; [exact Qe|rewrite Ql; exact Hls]|].
+    exists (raw_code ind (lit "__var" ++ itoa (N.of_nat (S (w_num (fst s))))) t). split.
+    - rewrite (dynamic_text_code sm t s Q). cbv zeta. rewrite Hls. cbn [Lcu wl_indent wl_unesc]. unfold raw_code. rewrite <- !app_assoc. reflexivity.
+    - rewrite <- (app_nil_r (raw_code ind _ t)). apply d_raw. constructor. }
+  destruct m.
+  - assert (Hs : wl_static (snd st) = true) by (rewrite Hl; reflexivity).
+    rewrite (emit_dynamic_from_open sm t st Hs).
+    destruct (close_string_literal_txt st He) as ([Ec Sc] & Ic & Uc & Tc).
+    assert (Lcl : snd (close_string_literal st) = Lcu).
+    { clear - Hl He. destruct st as [[o n l c a e] loc]. cbn [fst snd w_err] in *. subst e loc.
+      unfold close_string_literal, add_err_handler, wr, write, w_write, set_local. cbn. reflexivity. }
+    destruct (Hclosed _ Ec Lcl) as [M (code & T & D)]. split; [exact M|].
+    exists (close_text (Lo ind) ++ code). split; [rewrite T, Tc, Hl, <- app_assoc; reflexivity|]. apply d_close. exact D.
+  - apply Hclosed; assumption.
+Qed.
+End Raw.
+
 (** * the fragment: static trees, interpolation, scripts, and simple `-` blocks (if / for / switch without else) *)
 Definition dyn_text (o : token) : Prop := static_text o \/ toktype_eqb (t_typ o) TDynamicText = true.
 
@@ -239,6 +302,22 @@ Definition id_class_html (d : elem) : bytes :=
 
 Definition attrs_segs (d : elem) : list seg := List.concat (map (fun kv => attr_segs (snd kv)) (e_attrs d)).
 
+(** what may follow `!` on a line: text (written without escaping) and expressions *)
+Definition raw_child (n : node) : Prop :=
+  match n with
+  | Node (KText o) _ => toktype_eqb (t_typ o) TDynamicText = true \/
+                        (bytes_ok (t_lit o) /\ toktype_eqb (t_typ o) TDynamicText = false /\ toktype_eqb (t_typ o) TPreserveText = false)
+  | Node (KScript _) _ => True
+  | _ => False
+  end.
+
+Definition raw_segs (n : node) : list seg :=
+  match n with
+  | Node (KText o) _ => if toktype_eqb (t_typ o) TDynamicText then [SRaw o] else [SLit (t_lit o)]
+  | Node (KScript o) _ => [SRaw o]
+  | _ => []
+  end.
+
 Fixpoint dyn_node (n : node) : Prop :=
   match n with
   | Node k ch =>
@@ -251,6 +330,7 @@ Fixpoint dyn_node (n : node) : Prop :=
     | KDoctype _ => True
     | KComment o _ => t_lit o <> [] /\ bytes_ok (t_lit o)
     | KSilent o _ _ => block_stmt o /\ ch <> [] /\ all ch
+    | KUnescape _ _ => Forall raw_child ch
     | _ => False
     end
   end.
@@ -270,6 +350,7 @@ Fixpoint segs_of (n : node) : list seg :=
     | KDoctype _ => [SLit (lit "<!DOCTYPE html>")]
     | KComment o _ => [SLit (lit "<!--" ++ html_escape (t_lit o) ++ lit "-->" ++ [10])]
     | KSilent o _ _ => [SBlock (go_trim_space (t_lit o)) (kids ch)]
+    | KUnescape _ _ => List.concat (map raw_segs ch)
     | _ => []
     end
   end.
@@ -378,6 +459,27 @@ Proof.
   eapply Run_trans; eassumption.
 Qed.
 
+Lemma raw_list_run sm ind (l : list node) : Forall raw_child l -> forall nc m st, MSu ind m st ->
+  exists m', Runu ind m st m' (emit_list sm l nc st) (List.concat (map raw_segs l)).
+Proof.
+  induction 1 as [|c rest Hc _ IH]; intros nc m st H; [exists m; apply Runu_refl; exact H|].
+  cbn [emit_list map List.concat]. destruct c as [k ch]. rewrite emit_node_unfold. unfold emit_node_body.
+  destruct k; try contradiction; cbn [raw_child raw_segs] in *.
+  - (* text *)
+    cbn [fst snd]. unfold emit_text. destruct Hc as [Hd|(Hok & Hd & Hp)].
+    + rewrite Hd. destruct (raw_run ind m sm origin st H) as [M R].
+      destruct (IH false false _ M) as (m2 & R2). exists m2. eapply Runu_trans; [split; [exact M|exact R]|exact R2].
+    + rewrite Hd, Hp. pose proof H as [He Hl]. rewrite Hl. cbv zeta.
+      assert (Hu : wl_unesc (if m then Lou ind else Lcu ind) = true) by (destruct m; reflexivity). rewrite Hu.
+      rewrite Bool.orb_true_r. cbn [negb].
+      assert (R : reads_as (chunk_text_plain (t_lit origin)) (t_lit origin)) by (apply reads_as_quote; exact Hok).
+      pose proof (chunk_run_u ind m _ _ st H R) as R1.
+      destruct (IH false true _ (proj1 R1)) as (m2 & R2). exists m2. eapply Runu_trans; eassumption.
+  - (* script *)
+    cbn [fst snd]. destruct (raw_run ind m sm origin st H) as [M R].
+    destruct (IH false false _ M) as (m2 & R2). exists m2. eapply Runu_trans; [split; [exact M|exact R]|exact R2].
+Qed.
+
 Definition node_run_at (n : node) : Prop :=
   dyn_node n -> forall ind sm next m st, next_ok next -> MS ind m st ->
   exists m', Run ind m st m' (fst (emit_node sm n next false st)) (segs_of n) /\ snd (emit_node sm n next false st) = false.
@@ -443,6 +545,14 @@ Proof.
       * apply chunk_run; [exact H|]. apply reads_as_quote. exact Hok.
       * destruct (chunk_text_escaped_ok (t_lit origin) Hok) as [R _]. apply chunk_run; assumption.
     + rewrite Hdyn. exists false. split; [apply dyn_run; exact H|reflexivity].
+  - (* unescaped line *)
+    cbn [fst snd].
+    assert (Hu : MSu ind m (set_unesc true st)).
+    { destruct H as [He Hl]. split; [exact He|]. unfold set_unesc. cbn [set_local snd]. rewrite Hl. destruct m; reflexivity. }
+    destruct (raw_list_run sm ind ch Hs false m _ Hu) as (m' & [E5 L5] & code & T5 & D5).
+    exists m'. split; [|reflexivity]. split.
+    + split; [exact E5|]. unfold set_unesc at 1. cbn [set_local snd]. rewrite L5. destruct m'; reflexivity.
+    + exists code. split; [|exact D5]. unfold set_unesc at 1. rewrite txt_set_local, T5. unfold set_unesc. rewrite txt_set_local. reflexivity.
   - (* a `-` block *)
     destruct Hs as [(Hop & Hsuf & Hpre & _ & _) [Hne Hch]]. apply dyn_all_eq in Hch.
     rewrite Hop, Hsuf, Hpre. cbn [andb negb].
